@@ -26,7 +26,7 @@ from harness import common
 common.use_repo()
 
 KINDS = ["int1", "int0", "str", "tuple", "obj", "task", "job"]
-MAX_YIELDS = 20000  # a generator producing more than this is reported, not followed
+MAX_YIELDS = 5000  # a generator producing more than this is reported, not followed
 
 
 class CaseTimeout(Exception):
@@ -267,7 +267,7 @@ def _alarm(_sig, _frm):
     raise CaseTimeout()
 
 
-def run_case(case: dict, timeout_s: float = 20.0) -> dict:
+def run_case(case: dict, timeout_s: float = 10.0) -> dict:
     """Run one case on the real code; returns {"res": [...]} like the driver.
     A case that does not finish within `timeout_s` yields {"res": ..., "timeout": True}."""
     kind = case.get("kind", "int1")
